@@ -518,4 +518,39 @@ theorem rfind_eq (h sv : Str) (pos : Nat) : rfind h sv pos = .ok (Spec.rfind h s
 example : rfind [97, 98, 97, 98] [97, 98] NPOS = .ok (some 2) := by rfl
 example : rfind [97, 98, 97, 98] [97, 98] 1 = .ok (some 0) := by rfl
 
+/-! ### wide strings: `wchar_t` is signed on this target -/
+
+theorem signedKey32_lt_iff {u v : Nat} (hu : u < 4294967296) (hv : v < 4294967296) :
+    Spec.signedKey32 u < Spec.signedKey32 v ↔ Spec.signed32 u < Spec.signed32 v := by
+  unfold Spec.signedKey32 Spec.signed32
+  split <;> split <;> omega
+
+theorem signedKey32_inj {u v : Nat} (hu : u < 4294967296) (hv : v < 4294967296) :
+    Spec.signedKey32 u = Spec.signedKey32 v ↔ u = v := by
+  unfold Spec.signedKey32
+  omega
+
+/-- The comparison of two wide strings by the signed value of their code units - what `basic_string_view<wchar_t>::compare`
+    and `basic_inplace_string<wchar_t, N>::compare` have to return here - is the natural-order comparison (`Spec.cmp`, the
+    one every `compare_*` theorem is about) of the images under `signedKey32`.  This is what the C04 and C08 drivers
+    compute on `ct=wchar` lines, for every pair of strings of 32-bit patterns. -/
+theorem cmpSigned_eq_cmp_key (a b : Spec.Str) (ha : ∀ u ∈ a, u < 4294967296) (hb : ∀ u ∈ b, u < 4294967296) :
+    Spec.cmpSigned a b = Spec.cmp (a.map Spec.signedKey32) (b.map Spec.signedKey32) := by
+  induction a generalizing b with
+  | nil => cases b <;> simp [Spec.cmpSigned, Spec.cmp]
+  | cons x xs ih =>
+    cases b with
+    | nil => simp [Spec.cmpSigned, Spec.cmp]
+    | cons y ys =>
+      have hx : x < 4294967296 := ha x (by simp)
+      have hy : y < 4294967296 := hb y (by simp)
+      have h1 := signedKey32_lt_iff hx hy
+      have h2 := signedKey32_lt_iff hy hx
+      simp only [Spec.cmpSigned, Spec.cmp, List.map_cons, gt_iff_lt, h1, h2]
+      rw [ih ys (fun u hu => ha u (by simp [hu])) (fun u hu => hb u (by simp [hu]))]
+
+/-- non-vacuity and the point of the device: L"\xFFFFFFFF" (-1) sorts before L"\x1", although 0xFFFFFFFF > 1 -/
+example : Spec.cmpSigned [4294967295] [1] = -1 ∧ Spec.cmp [4294967295] [1] = 1 ∧
+    Spec.cmp ([4294967295].map Spec.signedKey32) ([1].map Spec.signedKey32) = -1 := by decide
+
 end Tetl.C08.Props
